@@ -45,6 +45,7 @@ REQUIRED_REACH = [
     "probe:truncated_included_file",
     "probe:torn_utf8_through_file_entry",
     "probe:token_soup",
+    "probe:include_graph",
 ]
 
 HARD_BUDGET = 20_000_000
@@ -342,7 +343,19 @@ def soup_workload(rng: random.Random) -> dict[str, Any]:
     if rng.random() < 0.5:
         text = "*=0x008000\n" + text
     files = {"main.s": text.encode("utf-8"), "zoo.tbl": b"41=A\n42=B\n43=C\n", "other.s": b"nop\n", "zoo.bin": b"\x01\x02\x03"}
-    return {"files": files, "roles": {"main.s": "source", "zoo.tbl": "table", "other.s": "include", "zoo.bin": "incbin"}, "mapping": "low", "target": "main.s", "name": "soup"}
+    roles = {"main.s": "source", "zoo.tbl": "table", "other.s": "include", "zoo.bin": "incbin"}
+    if rng.random() < 0.3:
+        # a small random graph of include files (cycles, diamonds, helpers of different lengths): a cycle
+        # must end in an error, never in an endless expansion
+        k = rng.randrange(2, 5)
+        files["defs.s"] = "".join(f"gc{j} = {j}\n" for j in range(rng.choice([1, 3, 8, 20]))).encode()
+        roles["defs.s"] = "include"
+        for i in range(k):
+            lines = [rng.choice([f".include 'g{rng.randrange(k)}.s'", f".include 'g{rng.randrange(k)}.s'", ".include 'defs.s'", ".db 1", "nop", f"gl{i}_{j}:", ".include 'other.s'"]) for j in range(rng.randrange(1, 5))]
+            files[f"g{i}.s"] = ("\n".join(lines) + "\n").encode()
+            roles[f"g{i}.s"] = "include"
+        files["main.s"] = (text + ("\n" if text else "") + ".include 'g0.s'\n" + rng.choice(["", "nop\n", ".db 2\n"])).encode("utf-8")
+    return {"files": files, "roles": roles, "mapping": "low", "target": "main.s", "name": "soup"}
 
 
 def gen_case(cseed: int, tier: str) -> dict[str, Any]:
@@ -467,6 +480,8 @@ def run_single(case: dict[str, Any], stats: Stats) -> list[Violation]:
         stats.state(core.digest(faulted), "unfaulted:" + wl["name"])
     if wl["name"] == "soup":
         stats.bump("probe:token_soup")
+        if "g0.s" in files:
+            stats.bump("probe:include_graph")
     stats.bump(f"outcome:{o['kind']}" + (":" + o["exc"]["type"] if o.get("exc") else ""))
     mem = o.get("exc", {}) and o["exc"]["type"] == "MemoryError"
     if o["kind"] != "timeout" and not mem:
@@ -491,9 +506,11 @@ def run_single(case: dict[str, Any], stats: Stats) -> list[Violation]:
     what = "ran out of memory (4 GiB)" if mem2 else f"still running after {HARD_BUDGET} interpreter steps"
     if o2.get("cpu"):
         what = f"used {CPU_STAGE2_S} s of CPU time without returning (and without executing Python-level steps)"
+    if o2.get("blocked"):
+        what = f"blocks forever: {o2['blocked']}"
     tail = text[-60:].replace("\n", "\\n")
     end_bucket = lexical_bucket(faulted, max(0, len(faulted) - 1)) if faulted else "empty"
-    sig = f"{entry}:ends_in_{end_bucket}" + (":has_nul" if b"\0" in faulted else "") + (":non_ascii" if any(b > 127 for b in faulted) else "") + (":cpu" if o2.get("cpu") else "")
+    sig = f"{entry}:ends_in_{end_bucket}" + (":has_nul" if b"\0" in faulted else "") + (":non_ascii" if any(b > 127 for b in faulted) else "") + (":cpu" if o2.get("cpu") else "") + (":blocked" if o2.get("blocked") else "")
     return [
         Violation(
             "non_termination",
